@@ -1,6 +1,110 @@
-(* Props/C11.v -- property theorems for C11 (data.Chunk, the packet buffer). *)
+(* Props/C11.v -- property theorems for C11: data.Chunk, the packet buffer, behaves like a FIFO byte
+   queue, never panics, never exceeds its Limit and reports exactly how many bytes it accepted.
+
+   All statements are about Model.Chunk.step / run -- the functions `check` evaluates against the
+   real data.Chunk in the correspondence run -- for ALL states satisfying the representation
+   invariant, ALL operations with well-formed arguments (op_ok: byte slices hold bytes, widths are
+   1/2/4/8, a positional index is not negative, a reader returns at most the 16 KiB it was offered)
+   and ALL allocator answers (the oracle: the model allocates max(request, oracle), i.e. any
+   capacity >= the request).  The specification is Model.Chunk.qstep: one step of a plain byte
+   queue (q = unread bytes, p = retained read bytes that Seek can re-expose). *)
 From XMT Require Import Base.Prelude Model.Codec Model.Chunk Proofs.Chunk.
 
-Theorem C11_clear_inv : forall s, inv (clear s).
-Proof. exact clear_inv. Qed.
-Print Assumptions C11_clear_inv.
+(* refinement, invariant, limit and totality of one step in one statement *)
+Theorem C11_step_refines_queue : forall s o orc, inv s -> op_ok o ->
+  exists s' r, step s o orc = Ok (s', r) /\
+    (inv s' /\ limit s' = limit s /\ (lim_ok s -> lim_ok s')) /\
+    qstep (limit s) (past s) (abs s) o r (past s') (abs s').
+Proof. exact step_refines. Qed.
+Print Assumptions C11_step_refines_queue.
+
+Theorem C11_inv_preserved : forall s o orc s' r, inv s -> op_ok o ->
+  step s o orc = Ok (s', r) -> inv s' /\ limit s' = limit s.
+Proof. exact inv_preserved. Qed.
+Print Assumptions C11_inv_preserved.
+
+(* no operation panics (and none fails with a model-only error): every step returns *)
+Theorem C11_no_panic : forall s o orc, inv s -> op_ok o -> exists s' r, step s o orc = Ok (s', r).
+Proof. exact no_panic. Qed.
+Print Assumptions C11_no_panic.
+
+Theorem C11_no_panic_history : forall l s, inv s -> ops_ok l ->
+  exists s' rs, run s l = Ok (s', rs) /\ inv s'.
+Proof. exact no_panic_run. Qed.
+Print Assumptions C11_no_panic_history.
+
+(* every history of the implementation is a history of the byte queue *)
+Theorem C11_chunk_refines_queue : forall l s, inv s -> ops_ok l ->
+  exists s' rs, run s l = Ok (s', rs) /\
+    (inv s' /\ limit s' = limit s /\ (lim_ok s -> lim_ok s')) /\ length rs = length l /\
+    qsteps (limit s) (past s) (abs s) (history l rs) (past s') (abs s').
+Proof. exact run_refines. Qed.
+Print Assumptions C11_chunk_refines_queue.
+
+(* FIFO: along writes and reads, (queue before ++ everything accepted) = (everything taken from the
+   front ++ queue after); with raw reads only, what was taken is what the readers received *)
+Theorem C11_fifo_history : forall l s s' rs, inv s -> ops_ok l -> rw_ops l -> run s l = Ok (s', rs) ->
+  exists t, abs s ++ accepted_all (history l rs) = t ++ abs s' /\
+            (raw_ops l -> t = delivered_all (history l rs)).
+Proof. exact fifo_history. Qed.
+Print Assumptions C11_fifo_history.
+
+(* from an empty chunk: the bytes read are a prefix of the bytes accepted, the rest is still queued *)
+Theorem C11_read_is_prefix_of_accepted : forall l s s' rs,
+  inv s -> abs s = [] -> ops_ok l -> rw_ops l -> raw_ops l -> run s l = Ok (s', rs) ->
+  accepted_all (history l rs) = delivered_all (history l rs) ++ abs s'.
+Proof. exact fifo_fresh. Qed.
+Print Assumptions C11_read_is_prefix_of_accepted.
+
+(* with a Limit the buffer never holds more than the Limit, after every step of every history *)
+Theorem C11_limit_invariant : forall l1 l2 s s' rs, inv s -> lim_ok s -> ops_ok (l1 ++ l2) ->
+  run s (l1 ++ l2) = Ok (s', rs) ->
+  exists s1 r1, run s l1 = Ok (s1, r1) /\ limit s1 = limit s /\ (0 < limit s -> blen s1 <= limit s).
+Proof. exact limit_invariant. Qed.
+Print Assumptions C11_limit_invariant.
+
+(* Write reports exactly the number of bytes appended; it is short only with the limit error (or
+   too-large, which needs a capacity beyond MaxSlice); an error on a non-empty slice means short *)
+Theorem C11_write_reports_exact : forall s b orc, inv s -> byte_list b ->
+  exists s' n e, step s (OWrite b) orc = Ok (s', RNE n e) /\
+    0 <= n <= len b /\ abs s' = abs s ++ take n b /\
+    (e = 0 \/ (e = ErrLimit /\ 0 < limit s) \/ (e = ErrTooLarge /\ MaxSlice < cap s + len b)) /\
+    (e = 0 -> n = len b) /\ (n < len b -> e <> 0) /\ (e <> 0 -> b <> [] -> n < len b) /\
+    (lim_ok s -> 0 < limit s -> blen s' <= limit s).
+Proof. exact write_reports_exact. Qed.
+Print Assumptions C11_write_reports_exact.
+
+(* a typed write is all or nothing (true since fix 4f382ba) *)
+Theorem C11_typed_write_atomic : forall s o orc s' e, inv s -> op_ok o ->
+  (exists w v, o = OWriteFixed w v) \/ (exists b, o = OWriteBytes b) ->
+  step s o orc = Ok (s', RErr e) ->
+  (e <> 0 -> abs s' = abs s) /\ (e = 0 -> abs s' = abs s ++ accepted o (RErr 0)).
+Proof. exact typed_write_atomic. Qed.
+Print Assumptions C11_typed_write_atomic.
+
+(* regression: the two defects that were repaired, against copies of the old definitions *)
+Theorem C11_writebytes_stray_refuted_before_fix :
+  exists s b o s' e, inv s /\ byte_list b /\ write_bytes_old s b o = Ok (s', e) /\ e = ErrLimit /\
+    abs s' = [0] /\ abs s = [].
+Proof. exact writebytes_stray_refuted. Qed.
+Print Assumptions C11_writebytes_stray_refuted_before_fix.
+
+Theorem C11_slide_limit_refuted_before_fix :
+  exists s1 s2 s3 d, write (init_state 8 None) (gen 1 8) 0 = Ok (s1, (8, 0)) /\
+    read s1 1 = Ok (s2, (d, 0)) /\ inv s2 /\ lim_ok s2 /\
+    write_old s2 (gen 1 2) 0 = Ok (s3, (2, 0)) /\ limit s3 = 8 /\ blen s3 = 9.
+Proof. exact slide_limit_refuted. Qed.
+Print Assumptions C11_slide_limit_refuted_before_fix.
+
+(* non-vacuity: a concrete history under Limit 8 satisfies every hypothesis above, and its result *)
+Example C11_nonvacuous_hypotheses : inv (init_state 8 None) /\ lim_ok (init_state 8 None) /\ ops_ok demo_ops.
+Proof. exact demo_ok. Qed.
+Print Assumptions C11_nonvacuous_hypotheses.
+
+Example C11_nonvacuous_run :
+  exists s', run (init_state 8 None) demo_ops =
+      Ok (s', [RNE 6 0; RData [1;2;3;4] 0; RNE 2 ErrLimit; RVal 1286 0; RData [7;8] 0; RData [] EOF;
+               RErr 0; RErr 0; RVal 513 0; RData [42;43] 0; RNE 2 ErrLimit]) /\
+    abs s' = [9;9] /\ blen s' = 8 /\ limit s' = 8.
+Proof. exact demo_run. Qed.
+Print Assumptions C11_nonvacuous_run.
